@@ -55,6 +55,11 @@ def explore(ctx):
         forms = gen.closure_chain_program(ctx.rng)
         kinds["lambda"] += sum(f.count("(lambda") for f in forms)
         cases.append(make_case(forms))
+    # standard procedure names rebound by the program: an operator is looked up like any other identifier
+    for k in range(300 if ctx.quick else 6000):
+        forms = gen.shadowed_builtin_program(ctx.rng)
+        kinds["define"] += sum(1 for f in forms if f.startswith("(define"))
+        cases.append(make_case(forms))
     results, ndis = common.run_cases(ctx, cases, compare=common.compare_fuel)
     outcomes = {"value": 0, "none": 0, "error": 0, "timeout/abort": 0}
     distinct = set()
@@ -86,6 +91,9 @@ def explore(ctx):
                 "in tail position with ticking / state-changing tests and every kind of branch (constant, variable, quoted datum, "
                 "call, nested and one-armed conditional) called directly, as operand, through apply, from a tail call and from a thunk, "
                 "and loops whose every round tail-calls a NEW closure of the same lambda expression capturing changing values, "
+                "and programs that bind the name of a standard procedure (not, car, +, list, ...) as a parameter, by an internal or "
+                "top-level definition, by let or by set! to another procedure and use it as operator in tests of conditionals, "
+                "operands and derived forms, "
                 "evaluated form by form "
                 "on one interpreter; observables per form: canonical value or error kind+location, tick trace, "
                 "stdout. non-trivial = distinct form that produced a value and contains a lambda, an apply or more "
